@@ -310,6 +310,9 @@ type leakTracker struct {
 	cur     levels
 	order   []string
 	classes map[string][]growth
+	// control classes (no fault injected): what leaks there and also in a fault class of the same batch
+	// is one defect and is reported once, under the fault class
+	control map[string]bool
 }
 
 func newLeakTracker(rep *vh.Reporter, who string, side func(string) bool) *leakTracker {
@@ -387,7 +390,18 @@ func (lt *leakTracker) finish(pendingOf func(class string) string) {
 				map[string]interface{}{"left_at_batch_end": left.Lib, "children": left.Kids, "dump_excerpt": dumpExcerpt(lt.side, metric)})
 		}
 	}()
+	var ordered []string
 	for _, class := range lt.order {
+		if !lt.control[class] {
+			ordered = append(ordered, class)
+		}
+	}
+	for _, class := range lt.order {
+		if lt.control[class] {
+			ordered = append(ordered, class)
+		}
+	}
+	for _, class := range ordered {
 		gs := lt.classes[class]
 		type acc struct{ cases, sum int }
 		m := map[string]*acc{}
@@ -440,6 +454,10 @@ func (lt *leakTracker) finish(pendingOf func(class string) string) {
 			}
 			if metric == "leak-fds" && m["leak-connections"] != nil && m["leak-connections"].cases >= 2 && m["leak-connections"].sum >= 2 {
 				// the sockets of the leaked connections: one defect, reported as leak-connections (fds in the witness)
+				continue
+			}
+			if lt.control[class] && reported[metric] {
+				lt.rep.Count("control_class_shows_same_leak", 1)
 				continue
 			}
 			reported[metric] = true
@@ -513,6 +531,9 @@ func c08Close(c *kit.LibClient, done chan error) {
 
 // notePoint records the matrix actually covered: one set per (kind, fault kind) holding the points.
 func notePoint(rep *vh.Reporter, kind, fault, point string, pending int) {
+	if i := strings.Index(point, ":"); i > 0 && strings.HasPrefix(point[i+1:], point[:i+1]) {
+		point = point[i+1:] // "init:init:pre-request" -> "init:pre-request"
+	}
 	rep.SetAdd("fault_points", kind+"|"+fault+"@"+point)
 	rep.SetAdd("points|"+kind+"|"+fault, point)
 	rep.SetAdd("transports", kind)
@@ -521,11 +542,17 @@ func notePoint(rep *vh.Reporter, kind, fault, point string, pending int) {
 	rep.Count("cases_"+fault, 1)
 }
 
-var sampled atomic.Bool
+var (
+	sampleSeq atomic.Int64
+	sampleAt  int64 = 1 // which case of this child is written out as a sample (set per batch)
+)
 
-// sampleOnce keeps the first case of this child as a written-out sample.
+// sampleOnce keeps one case of this child as a written-out sample.
 func sampleOnce(rep *vh.Reporter, v interface{}) {
-	if sampled.CompareAndSwap(false, true) {
+	if sampleSeq.Add(1) == sampleAt {
 		rep.Sample(v)
 	}
 }
+
+// pendings are the numbers of calls pending when the fault hits (thorough adds 32).
+var pendings = []int{1, 2, 8}
